@@ -147,14 +147,6 @@ impl G {
         }
     }
 
-    pub fn with(order: usize, arcs: &[(usize, usize, i64)]) -> G {
-        let mut g = G::new(order);
-        for &(u, v, w) in arcs {
-            let _ = g.arcs.insert((u, v), w);
-        }
-        g
-    }
-
     pub fn order(&self) -> usize {
         self.verts.len()
     }
@@ -531,7 +523,6 @@ pub trait Dg:
     const WEIGHTED: bool;
     /// add_arc admits new vertices (AdjacencyMap)
     const GROWS: bool;
-    const HAS_TOGGLE: bool = false;
     fn new_empty(order: usize) -> Self;
     /// a start digraph from a public constructor: "empty" for every
     /// representation, "complete" / "cycle" / "circuit" for the unweighted
@@ -614,7 +605,6 @@ impl_dg_unweighted!(AdjacencyList, "AdjacencyList", false, {});
 impl_dg_unweighted!(AdjacencyMap, "AdjacencyMap", true, {});
 impl_dg_unweighted!(EdgeList, "EdgeList", false, {});
 impl_dg_unweighted!(AdjacencyMatrix, "AdjacencyMatrix", false, {
-    const HAS_TOGGLE: bool = true;
     fn toggle_arc(&mut self, u: usize, v: usize) {
         self.toggle(u, v);
     }
